@@ -28,6 +28,7 @@ RULE = ("cases = (device DM|FIBER, n_pol, length odd/even/prime/2^k, D or (alpha
 PARTIAL = ["numpy's FFT is trusted to compute the DFT; Float rounding not covered by theorems",
            "power clause 10^(-alpha*L/10) is checked by the oracle at the tolerance implied by the code's constant 4.343"]
 ASSUMPTIONS = ["numpy.fft = DFT", "IEEE double arithmetic on both sides"]
+THOROUGH_ROUNDS = 6      # the thorough tier draws the whole generator this many times
 BUDGET = {"quick": 120, "thorough": 600}
 
 
